@@ -35,25 +35,28 @@ def end_time_index(prev_state, last_state):
     return idx
 
 
+ALLKINDS = list(MG.GENERATORS) + list(getattr(MG, "EXTRA_GENERATORS", {}))
+
+
 @st.composite
 def case_strategy(draw):
     m = MG.Model()
     p = draw(st.integers(1, 3))
-    blocks = [draw(MG.gen_block(m, first=(b == 0))) for b in range(p)]
+    blocks = [draw(MG.gen_block(m, first=(b == 0), kinds=ALLKINDS)) for b in range(p)]
     # keywords of the open block (belong to the last compared state)
     openkw = []
     for _ in range(draw(st.integers(0, 4))):
-        t = draw(MG.gen_kw(m, draw(st.sampled_from(list(MG.GENERATORS)))))
+        t = draw(MG.gen_kw(m, draw(st.sampled_from(ALLKINDS))))
         if t:
             openkw.append(t)
     ma, mb = m.clone(), m.clone()
     ta, na = draw(MG.gen_time(ma))
-    tail_a = [draw(MG.gen_block(ma)) for _ in range(draw(st.integers(1, 3)))]
+    tail_a = [draw(MG.gen_block(ma, kinds=ALLKINDS)) for _ in range(draw(st.integers(1, 3)))]
     tb, nb = draw(MG.gen_time(mb))
-    tail_b = [draw(MG.gen_block(mb)) for _ in range(draw(st.integers(0, 3)))]
+    tail_b = [draw(MG.gen_block(mb, kinds=ALLKINDS)) for _ in range(draw(st.integers(0, 3)))]
     final_b = []
     for _ in range(draw(st.integers(0, 2))):
-        t = draw(MG.gen_kw(mb, draw(st.sampled_from(list(MG.GENERATORS)))))
+        t = draw(MG.gen_kw(mb, draw(st.sampled_from(ALLKINDS))))
         if t:
             final_b.append(t)
     # T3: the original tail with one keyword dropped or duplicated
@@ -145,7 +148,8 @@ class C03(Check):
         labels = ["unit:" + case["unit"], "prefix-blocks:%d" % len(case["prefix"])]
         alltxt = "".join("".join(b["kws"]) for b in case["prefix"]) + "".join(case["open"])
         tail = "".join("".join(b["kws"]) for b in case["tail_a"] + case["tail_b"]) + "".join(case["final_b"])
-        for kw in ("ACTIONX", "UDQ", "WPIMULT", "WELOPEN", "GRUPTREE", "WLIST", "COMPDAT", "WELSPECS"):
+        for kw in ("ACTIONX", "UDQ", "WPIMULT", "WELOPEN", "GRUPTREE", "WLIST", "COMPDAT", "WELSPECS", "WELSEGS", "WSEGVALV",
+                   "BRANPROP", "NODEPROP", "WCONINJH"):
             if kw + "\n" in alltxt:
                 labels.append("prefix:" + kw)
             if kw + "\n" in tail:
